@@ -1,6 +1,7 @@
 package lib
 
 import (
+	"bytes"
 	"fmt"
 	"sync"
 	"time"
@@ -33,6 +34,58 @@ type Coll struct {
 	stopCons chan struct{}
 	Pause    func() // optional: called by the consumer before each receive (pacing perturbation)
 	Keep     func(m *entities.Message) bool
+	// retained holds the last few delivered message objects with the summary taken at
+	// delivery: a delivered message must not change when later messages arrive (it would
+	// if the decoder handed out values aliasing a reused receive buffer).
+	retained  []retainedMsg
+	mutations []string
+}
+
+type retainedMsg struct {
+	m     *entities.Message
+	first *mirror.Outcome
+	n     int
+}
+
+const retainWindow = 3
+
+func sameOutcome(a, b *mirror.Outcome) string {
+	if a.IsTemplate != b.IsTemplate || a.SetID != b.SetID || a.Domain != b.Domain {
+		return "header/kind changed"
+	}
+	if len(a.TFields) != len(b.TFields) || len(a.Records) != len(b.Records) {
+		return fmt.Sprintf("shape changed (%d/%d fields, %d/%d records)", len(a.TFields), len(b.TFields), len(a.Records), len(b.Records))
+	}
+	for i := range a.TFields {
+		if a.TFields[i] != b.TFields[i] {
+			return fmt.Sprintf("template field %d changed", i)
+		}
+	}
+	for i := range a.Records {
+		if len(a.Records[i]) != len(b.Records[i]) {
+			return fmt.Sprintf("record %d field count changed", i)
+		}
+		for j := range a.Records[i] {
+			if !bytes.Equal(a.Records[i][j], b.Records[i][j]) {
+				return fmt.Sprintf("record %d field %d: %x at delivery, %x now", i, j, clip24(a.Records[i][j]), clip24(b.Records[i][j]))
+			}
+		}
+	}
+	return ""
+}
+
+func clip24(b []byte) []byte {
+	if len(b) > 24 {
+		return b[:24]
+	}
+	return b
+}
+
+// Mutations lists delivered messages whose content changed after delivery.
+func (c *Coll) Mutations() []string {
+	c.mu.Lock()
+	defer c.mu.Unlock()
+	return append([]string(nil), c.mutations...)
 }
 
 // StartCollector starts cp.Start() in a goroutine and waits until the address is published
@@ -87,7 +140,22 @@ func (c *Coll) consume() {
 				continue
 			}
 			out := Summarize(m, nil)
+			// re-read the messages delivered just before this one
+			var mut []string
+			for _, rm := range c.retained {
+				if why := sameOutcome(rm.first, Summarize(rm.m, nil)); why != "" {
+					mut = append(mut, fmt.Sprintf("delivery #%d (domain %d) changed after a later message was delivered: %s", rm.n, rm.first.Domain, why))
+				}
+			}
 			c.mu.Lock()
+			c.mutations = append(c.mutations, mut...)
+			if len(c.mutations) > 20 {
+				c.mutations = c.mutations[:20]
+			}
+			c.retained = append(c.retained, retainedMsg{m, out, c.total})
+			if len(c.retained) > retainWindow {
+				c.retained = c.retained[1:]
+			}
 			d := Delivery{Out: out, Seq: m.GetSequenceNum(), Addr: m.GetExportAddress(), At: time.Now(), N: c.total}
 			c.total++
 			c.byDomain[out.Domain] = append(c.byDomain[out.Domain], d)
